@@ -7,7 +7,8 @@ planned runs x failing run index x traced; NoExecBeforeGates, ExitTable, StopAft
 checked and every terminal behaviour is emitted.  Each is concretised into a YAML file + argv
 (several concrete shapes per defect class, chosen by hash), run through semantiva.cli.main
 in-process (a sample in fresh subprocesses), and exit code, processor call log, sink file and
-trace directory are compared with the spec's prediction."""
+trace directory are compared with the spec's prediction.  The `--set` dimension is c17_override.py
+(Override.tla: the effective configuration is what the gates judge and what runs)."""
 from __future__ import annotations
 
 import contextlib
@@ -133,6 +134,15 @@ def concretise(sc: Dict[str, Any], tmp: Path, h: int) -> Tuple[List[str], Dict[s
         argv += ["--run-space-attempt", ["0", "-3"][h % 2]]
     elif d == "runspace_source_missing":
         doc["run_space"]["blocks"].append({"mode": "by_position", "source": {"format": "csv", "path": "missing.csv"}})
+    if sc.get("rsFile") and "run_space" in doc and argv and argv[0] == "run" and len(argv) > 1:
+        # the plan lives in its own file (either `run_space: {...}` or the bare block); the pipeline file keeps a decoy
+        # block that must be REPLACED, flags given on the command line apply to the plan from the file
+        block = doc.pop("run_space")
+        (tmp / "plan.yaml").write_text(yaml.safe_dump({"run_space": block} if h % 2 else block, sort_keys=False))
+        if h % 3 == 0:
+            doc["run_space"] = {"combine": "combinatorial", "max_runs": 1000,
+                                "blocks": [{"mode": "by_position", "context": {"factor": [7.0] * 9, "trigger": [0.0] * 9}}]}
+        argv += ["--run-space-file", str(tmp / "plan.yaml")]
     if d not in ("usage",) or len(argv) > 1:
         for k, v in ctx.items():
             if argv and argv[0] == "run" and len(argv) > 1:
@@ -239,8 +249,9 @@ def replay_chunk(cases: List[Dict[str, Any]]):
 
 def replay_one(payload):
     from .. import seams
+    from . import c17_override
     seams.setup()
-    r = replay_chunk([payload["case"]])
+    r = c17_override.replay_chunk([payload["override_case"]]) if "override_case" in payload else replay_chunk([payload["case"]])
     for key, what, _ in r["viol"]:
         print(f"VIOLATION property=C17 replay=<given>\n  {key}\n  {what}")
     return 1 if r["viol"] else 0
@@ -272,7 +283,8 @@ def check(tier: str) -> int:
                 "run through semantiva.cli.main; non-trivial = invocations that must not execute anything")
     run.assumptions = ["execution is witnessed by a call-logging processor placed before the failing node and by the sink file",
                        "--validate returns before run-space expansion (modelled as the code behaves: ValidateSkipsRunSpaceExpansion)",
-                       "an operator interrupt is modelled by a node raising KeyboardInterrupt (exit 5)"]
+                       "an operator interrupt is modelled by a node raising KeyboardInterrupt (exit 5)",
+                       "--set: Override.tla names what the code does (OverrideNeverCreates, PythonIndexing, WholeSubtreeReplaced, AppliedInOrder)"]
     tlc_check(run, tier)
     cases = emitted_cases(tier)
     for r in pmap(replay_chunk, cases, chunk=25, tasks_per_child=3):
@@ -293,6 +305,9 @@ def check(tier: str) -> int:
         run.evaluations += 1
         for key, msg in compare(case, obs):
             run.violation(key + ":subprocess", f"(fresh process) argv={obs['argv']} scenario={case['sc']}: {msg}; stderr {obs['stderr'][-200:]!r}", {"case": case})
+    # the --set dimension: Override.tla (configuration tree + override algebra + verdict on the effective configuration)
+    from . import c17_override
+    c17_override.run_part(run, tier)
     run.sample({"scenario": cases[0]["sc"], "expected": {k: cases[0][k] for k in ("exit", "started", "completed")}})
     run.exhaustive = True
     return run.finish()
